@@ -110,8 +110,10 @@ Definition dispatch_c03 (ts : list tok) : list tok :=
       | k :: rest' =>
         let (names, r1) := parse_names rest' in
         let (allow, _) := parse_names r1 in
-        let kd := if is_word "socket" k then KSocket else if is_word "packet" k then KPacket
-                  else if is_word "dns" k then KDns else KStdio in
+        (* cfg-<kind>: the same server object built from configuration text *)
+        let kd := if is_word "socket" k || is_word "cfg-socket" k then KSocket
+                  else if is_word "packet" k || is_word "cfg-packet" k then KPacket
+                  else if is_word "dns" k || is_word "cfg-dns" k then KDns else KStdio in
         match startup kd (tag_names names 0) allow with
         | None => [W "abort"]
         | Some served => [W "started"; Tnat (List.length served)] ++ map (fun c => Tnat (snd c)) served
